@@ -21,13 +21,13 @@ def pick(rnd, i):
     return case, make, ""
 
 
-CHECK = ComponentCheck("C14", pick)
+CHECK = ComponentCheck("C14", pick, embedded=(("BasicFifo", "FIFO"), ("serializer", "zipper", "pipeline")))
 shards, run_shard = CHECK.shards, CHECK.run_shard
-RULE = ("histories = random hostile call sequences (per-method enable probability re-drawn from {0.1,0.5,0.9,1} every 20-120 cycles) "
+RULE = ("[plus a second workload: BasicFifo instances embedded in PipelineBuilder pipelines, Serializer and ArgumentsToResultsZipper, watched passively (vf/passive.py) against the same reference model: readiness, results and state registers every cycle, conditions embedded:*] histories = random hostile call sequences (per-method enable probability re-drawn from {0.1,0.5,0.9,1} every 20-120 cycles) "
         "on FIFO/BasicFifo of depth 1..16 and 1-3 field layouts with unique payload ids, followed by a drain phase; "
         "a case is non-trivial and distinct by (component, depth, set of simultaneously executed methods among read+write / clear+write / "
         "clear+read / peek+read, boundary class full/1/other, level)")
 ASSUMPTIONS = ["pysim is the execution platform (no Yosys/Verilog back end available)",
                "readiness is observed as AND of Body.ready over the method's static callee tree"]
-MINIMA = {"quick": {"cycles": 5000, "calls:read": 1000, "calls:write": 1000, "multi_call_cycles": 500, "distinct": 20},
+MINIMA = {"quick": {"embedded_BasicFifo_cycles": 2000, "cycles": 5000, "calls:read": 1000, "calls:write": 1000, "multi_call_cycles": 500, "distinct": 20},
           "thorough": {"cycles": 500000, "distinct": 60}}
